@@ -97,3 +97,107 @@ def replay_vector(path, chk):
         return 0
     print("replay: record-type replays are validated by re-running the check")
     return 0
+
+
+# ------------------------------------------------------------------------------------------------ scenarios
+import re as _re
+from concurrent.futures import ThreadPoolExecutor
+
+
+def gen_scenarios(chk, wd, gen_module, *, cfg_text=None, label="gen", workers=8, timeout=3600, simulate=None, depth=None):
+    """Run a generator spec; returns the list of scenarios (dicts) with ids assigned."""
+    cfg = None
+    if cfg_text:
+        cfg = os.path.join(wd, f"{label}.cfg")
+        open(cfg, "w").write(cfg_text)
+    g = vlib.tlc(gen_module, cfg, name=label, wd=wd, workers=workers, timeout=timeout, simulate=simulate, depth=depth)
+    if not g.ok:
+        raise vlib.ToolError(f"generator {gen_module} failed:\n{g.error}")
+    chk.add_tlc(label, g)
+    raw = os.path.join(wd, f"{label}.scn.raw")
+    n = vlib.scn_extract(g.out_path, raw)
+    if n == 0:
+        raise vlib.ToolError(f"generator {gen_module} produced no scenarios (vacuous)")
+    scns = []
+    seen = set()
+    for i, line in enumerate(open(raw)):
+        if simulate:
+            h = hash(line)
+            if h in seen:
+                continue
+            seen.add(h)
+        s = json.loads(line)
+        s["id"] = f"{label}-{i+1}"
+        scns.append(s)
+    return scns
+
+
+def run_sim(chk, wd, scns, trace_module, *, label="sim", shards=12, sig_of=None, what_of=None, keep_traces=False):
+    """Execute scenarios on the real code (h3v sim) and validate every recorded trace with a TLC trace spec.
+    Scenarios the spec cannot explain become violations (with a self-contained replay file)."""
+    if not scns:
+        return 0
+    shards = max(1, min(shards, (len(scns) + 199) // 200))
+    parts = [scns[i::shards] for i in range(shards)]
+    by_id = {s["id"]: s for s in scns}
+
+    def one(k):
+        sf = os.path.join(wd, f"{label}.{k}.scn.ndjson")
+        tf = os.path.join(wd, f"{label}.{k}.trace.ndjson")
+        with open(sf, "w") as f:
+            for s in parts[k]:
+                f.write(json.dumps(s) + "\n")
+        vlib.h3v("sim", sf, tf)
+        r = vlib.tlc(trace_module, None, name=f"{label}.{k}.validate", wd=wd, workers=1, env={"TRACE": tf}, deque=True, xmx="3g")
+        return k, tf, r
+
+    with ThreadPoolExecutor(max_workers=min(shards, 14)) as ex:
+        results = list(ex.map(one, range(shards)))
+    nrej = 0
+    for k, tf, r in results:
+        if not r.ok:
+            raise vlib.ToolError(f"trace validation {trace_module} shard {k} failed to run:\n{r.error}")
+        chk.add_tlc(f"{label}.{k}-validate", r)
+        rej = _re.findall(r'<<"REJECT", "([^"]+)", "((?:[^"\\]|\\.)*)">>', r.text)
+        if rej:
+            # slice the traces of the rejected scenarios out of the shard trace
+            want = {sid for sid, _ in rej}
+            traces, cur = {}, None
+            for ev in vlib.read_ndjson(tf):
+                if ev.get("ev") == "reset":
+                    cur = ev.get("scn") if ev.get("scn") in want else None
+                    if cur:
+                        traces[cur] = []
+                if cur:
+                    traces[cur].append(ev)
+            for sid, why in rej:
+                nrej += 1
+                s = by_id.get(sid, {})
+                why = vlib._unesc.sub(lambda m: m.group(1), why)
+                sig = sig_of(s, traces.get(sid, []), why) if sig_of else f"{label}:rejected"
+                what = what_of(s, traces.get(sid, []), why) if what_of else f"scenario {sid} ({json.dumps({k: v for k, v in s.items() if k not in ('steps', 'handlers', 'default_handler', 'cfg')})[:200]}) is not a behaviour of {trace_module}: {why[:120]}"
+                chk.violation(sig, what, {"kind": "scenario", "trace_module": trace_module, "scenario": s, "trace": traces.get(sid, []), "why": why})
+        if not keep_traces:
+            try:
+                os.remove(tf)
+            except OSError:
+                pass
+    for s in scns[:2]:
+        chk.sample({k: v for k, v in s.items() if k != "id"})
+    chk.evaluations += len(scns)
+    chk.traces += len(scns)
+    return len(scns)
+
+
+def replay_scenario(path, chk):
+    obj = json.load(open(path))
+    rep = obj["replay"]
+    if rep.get("kind") != "scenario":
+        return replay_vector(path, chk)
+    wd = vlib.workdir(chk.prop + "-replay")
+    n = run_sim(chk, wd, [rep["scenario"]], rep["trace_module"], label="replay", shards=1, keep_traces=True)
+    if chk.violations:
+        print(f"VIOLATION property={chk.prop} replay={path}  # reproduced: {chk.violations[0]['what'][:200]}")
+        return 1
+    print("replay: the recorded scenario is now a behaviour of the specification")
+    return 0
